@@ -7,14 +7,17 @@ from common import run_correspondence
 import tnet_gen as G
 
 PROP = "C07"
-LEAN_FILES = ["QibProofs/Properties/C07.lean"]
+LEAN_FILES = ["QibProofs/Properties/C07.lean", "QibProofs/Properties/C07Model.lean"]
 GEN = ()
 DRIVER = "drv_tnet"
-LEVEL_TEXT = ("Lean 4 theorems: contraction along any binary tree equals the defining sum (abstract, all trees, all finite index "
-              "types); soundness of decidable per-node / per-einsum certificates over a hand-written executable replica of "
-              "SymbolicTensorNetwork.as_einsum / _build_contraction_tree / contract_tree; the replica is tied to the code by "
-              "exact comparison of every index list and every dense integer result, and the certificate is evaluated by the "
-              "model on every sampled tree.")
+LEVEL_TEXT = ("Lean 4 theorems: (abstract) contraction along any binary tree equals the defining sum for all trees and finite index types; "
+              "(on the executable replica of SymbolicTensorNetwork.as_einsum / _build_contraction_tree / contract_tree / to_full_tensor, file "
+              "C07Model.lean) for every consistent network - hyper-bonds, multi-edges, traces, shared open legs, open-only bonds - single-shot "
+              "contraction never fails and expands to the defining sum `full` (C07_einsum_complete), the tree builder always produces certified "
+              "nodes (C07_buildTree_ok), every scaffold over all real tensors that the code accepts expands to the same dense tensor "
+              "(C07_tree_total_any, C07_strategy_independent), permute_axes leaves the value unchanged (C07_permute_axes_invariant), the logical "
+              "shape is the reported one (C07_shape). The replica is tied to the code by exact comparison of every index list and every dense "
+              "integer result on every sample.")
 ASSUMPTIONS = ["np.einsum with explicit index lists is modelled by its defining sum (re-computed exactly by the model on every sample)",
                "networks are built through the public constructors; integer tensor data (exact comparison)",
                "tree contraction is only claimed when every open bond touches a real tensor and the scaffold is a full binary tree "
